@@ -2623,22 +2623,32 @@ def namespace_to_flowir(
 
     pattern_name = re.compile(SignatureNamePattern)
 
+    # VV: The (stage, name) pairs that are already in use
+    taken_names: typing.Set[typing.Tuple[int, str]] = set()
+
     for _, comp in components.items():
         assert isinstance(comp.scope.template, Component)
 
-        if comp.step_name not in component_names:
-            component_names[comp.step_name] = 0
-            name = comp.step_name
-        else:
-            component_names[comp.step_name] += 1
-            prior = component_names[comp.step_name]
-            name = "-".join((comp.step_name, number_to_roman_like_numeral(prior)))
+        # VV: Skip names that are already taken - a step may be called exactly like the de-duplicated name of
+        # another step (e.g. steps "a", "a", "a-I"), or differ from it just by the implied "stage0." prefix
+        while True:
+            if comp.step_name not in component_names:
+                component_names[comp.step_name] = 0
+                name = comp.step_name
+            else:
+                component_names[comp.step_name] += 1
+                prior = component_names[comp.step_name]
+                name = "-".join((comp.step_name, number_to_roman_like_numeral(prior)))
 
+            match = pattern_name.fullmatch(name)
+            match_groups = match.groupdict()
+            comp_id = (int(match_groups.get("stage") or 0), match_groups["name"])
 
-        match = pattern_name.fullmatch(name)
-        match_groups = match.groupdict()
+            if comp_id not in taken_names:
+                break
 
-        uid_to_name[tuple(comp.scope.location)] = (int(match_groups.get("stage") or 0), match_groups["name"])
+        taken_names.add(comp_id)
+        uid_to_name[tuple(comp.scope.location)] = comp_id
 
         comp.flowir['name'] = uid_to_name[tuple(comp.scope.location)][1]
         comp.flowir['stage'] = uid_to_name[tuple(comp.scope.location)][0]
